@@ -35,6 +35,14 @@ ONE adsorbate object, in both orders; every flash accessor at T' then T; near-du
 live for one query only (recycled addresses).  `fresh` also puts every module-level / class-level container of the package back to its
 content after import and clears every memoising wrapper (found by introspection).  A difference met in a long history is shrunk to a
 short one that reproduces it on fresh objects.
+Stored representation (round 7): the synthetic worlds keep the SAME physical isotherm in every stored representation — temperature in K / °C (alternating
+over the worlds of a run), absolute pressure in every unit / relative / relative%, loading molar (mmol, mol, cm3(STP)) / mass / volume_liquid / volume_gas /
+percent / fraction, material per mass (g, kg, mg) / volume / mole; model isotherms follow the temperature unit.  Read-only paths branch on these labels
+(`BaseIsotherm.temperature` converts at every read when the unit is not K): a memo bound there was out of reach of worlds kept in K, bar, mmol/g.
+Complete observation: the per-call snapshot also holds the public names bound on the instance, the labels and the stored temperature; after EVERY history
+(and every option-kind chain) each isotherm that took part is compared with an identical fresh twin: iso_id, to_dict (values and key order), to_json / to_csv /
+to_aif text, str, public instance names, and `==` between the two (`twin_observation`).  Lean: `bound_name_invisible_iff` (a name bound by a query is invisible
+in to_dict iff it is reserved), `readTemperature_kelvin_untouched`, `memo_leaks_into_export` (witness) about Model/Cache.lean `Export`.
 """
 import contextlib
 import copy
@@ -119,7 +127,13 @@ def _or_error(f):
 def snapshot(pg, iso, with_id=True):
     d = {"id": _or_error(lambda: iso.iso_id) if with_id else None, "dict": _or_error(lambda: canon(iso.to_dict())), "ads": canon(dict(iso.adsorbate.properties)), "ads_alias": tuple(iso.adsorbate.alias),
          "mat": canon(dict(iso.material.properties)), "adsorbate": snap_ads(iso.adsorbate), "material": snap_mat(iso.material),
-         "metadata": exact(iso.properties) if isinstance(getattr(iso, "properties", None), dict) else None}
+         "metadata": exact(iso.properties) if isinstance(getattr(iso, "properties", None), dict) else None,
+         # the instance dictionary itself: every attribute of an isotherm is bound by its constructor; a PUBLIC name that appears (or goes) during a read-only call is
+         # a change whoever reads it (to_dict, the exporters, a user); names with a leading underscore are the library's own business as long as nothing shows them
+         # (to_dict / identifier / exports are compared too) — they are listed in the coverage record only
+         "public_attributes": tuple(sorted(k for k in vars(iso) if not k.startswith("_"))),
+         "labels": tuple((k, repr(getattr(iso, k, None))) for k in ("pressure_mode", "pressure_unit", "loading_basis", "loading_unit", "material_basis", "material_unit", "temperature_unit")),
+         "stored_temperature": repr(getattr(iso, "_temperature", None))}
     if isinstance(iso, pg.PointIsotherm):
         raw = iso.data_raw
         d["cols"] = tuple(raw.columns)
@@ -423,6 +437,35 @@ def run(ck):
     reset_registry()
 
     # ================================================================== worlds: descriptions from which identical fresh objects are built
+    # stored representations: factor = stored number / number in the base representation (bar, mmol, g).  Mass / volume bases of the loading and the volume / molar
+    # bases of the material are RELABELLED numbers (any magnitude is a valid isotherm; the physical twin would need the adsorbate / material constants).
+    P_UNITS = {"bar": 1.0, "Pa": 1e5, "kPa": 100.0, "MPa": 0.1, "mbar": 1000.0, "atm": 1 / 1.01325, "torr": 1e5 / 133.322, "mmHg": 1e5 / 133.322}
+    L_REPS = [("molar", "mmol", 1.0), ("molar", "mol", 1e-3), ("molar", "cm3(STP)", 1e-3 / 4.461e-5), ("mass", "mg", 10.0), ("mass", "g", 0.01),
+              ("volume_liquid", "cm3", 0.03), ("volume_gas", "cm3", 24.0), ("percent", None, 1.0), ("fraction", None, 0.01)]
+    REP_PHASE = rng.randrange(2)
+
+    def t_store(unit, T_kelvin):
+        return T_kelvin if unit == "K" else T_kelvin - 273.15
+
+    def stored_representation(idx, rel, mat):
+        """Stratified: the temperature unit alternates over the worlds of a run (°C in every second one), the pressure unit / the loading representation /
+        the material representation are the library defaults in about a third of the worlds and drawn from all the others otherwise."""
+        tu = "°C" if (idx + REP_PHASE) % 2 == 0 else "K"
+        if rel:
+            mode, pu, pf = ("relative", None, 1.0) if rng.random() < 0.6 else ("relative%", None, 100.0)
+        else:
+            pu = "bar" if rng.random() < 0.35 else rng.choice(sorted(k for k in P_UNITS if k != "bar"))
+            mode, pf = "absolute", P_UNITS[pu]
+        lb, lu, lf = L_REPS[0] if rng.random() < 0.35 else rng.choice(L_REPS[1:])
+        m_reps = [("mass", "g", 1.0), ("mass", "kg", 1e3), ("mass", "mg", 1e-3)]
+        if "density" in mat:
+            m_reps.append(("volume", "cm3", 1.0))
+        if "molar_mass" in mat:
+            m_reps.append(("molar", "mmol", 1.0))
+        mb, mu, mf = m_reps[0] if rng.random() < 0.35 else rng.choice(m_reps[1:])
+        units = {"pressure_mode": mode, "pressure_unit": pu, "loading_basis": lb, "loading_unit": lu, "material_basis": mb, "material_unit": mu, "temperature_unit": tu}
+        return {"units": units, "p_factor": pf, "l_factor": lf * mf, "text": f"{mode}{'' if pu is None else ' ' + pu}, {lb} {lu} / {mb} {mu}, {tu}"}
+
     def synthetic_world(label, ads_name, idx):
         d = all_defs[ads_name]
         b = d.get("backend_name")
@@ -445,20 +488,27 @@ def run(ck):
         mat = {"name": f"pgv-solid-{idx}"}
         if rng.random() < 0.75:
             mat.update({"density": round(rng.uniform(0.4, 3.0), 3), "molar_mass": round(rng.uniform(60, 900), 2), "batch": "b" + str(idx)})
-        return {"kind": "synthetic", "name": f"synthetic#{idx} [{label}] {ads_name} {T} K", "class": label, "adsorbate": ads_name, "T": T, "T2": T2,
-                "units": {"pressure_mode": "relative" if rel else "absolute", "pressure_unit": None if rel else "bar", "loading_basis": "molar", "loading_unit": "mmol",
-                          "material_basis": "mass", "material_unit": "g", "temperature_unit": "K"},
+        # ---- the STORED representation (the same physical isotherm: the numbers above are bar | p/p0, mmol/g, kelvin).  The property quantifies over every isotherm,
+        #      whatever the units it keeps its data in; read-only paths branch on them (a temperature stored in °C is converted at every read, an absolute
+        #      pressure in another unit / a loading on another basis goes through another converter): every dimension takes its non-default values in every run.
+        rep = stored_representation(idx, rel, mat)
+        pressure = [p * rep["p_factor"] for p in pressure]
+        loading = [l * rep["l_factor"] for l in loading]
+        return {"kind": "synthetic", "name": f"synthetic#{idx} [{label}] {ads_name} {T} K, stored as {rep['text']}", "class": label, "adsorbate": ads_name, "T": T, "T2": T2,
+                "units": rep["units"], "stored_temperature": t_store(rep["units"]["temperature_unit"], T),
                 "pressure": pressure, "loading": loading, "branch": [0] * len(ps) + [1] * len(des_p),
                 "enthalpy": [round(40 - 20 * l / nm + rng.uniform(-0.5, 0.5), 4) for l in loading], "material": mat, "meta": {"user": "pgv", "run": idx},
                 "miso": {"model": rng.choice(["Langmuir", "Toth"]), "n_m": nm, "K": K / 1e5 if not rel else K, "t": tt, "top": top * 1e5 if not rel else top},
                 "miso2": {"model": rng.choice(["Henry", "DSLangmuir", "Freundlich", "Quadratic", "TemkinApprox", "JensenSeaton", "BET", "GAB"])}}
 
     def build_point(w, temperature=None, scale=1.0):
+        """`temperature` in KELVIN (like w["T"]); the isotherm keeps it in the unit of the world."""
         df = pd.DataFrame({"pressure": list(w["pressure"]), "loading": [l * scale for l in w["loading"]], "enthalpy": list(w["enthalpy"])})
         return pg.PointIsotherm(isotherm_data=df, pressure_key="pressure", loading_key="loading", branch=list(w["branch"]), material=dict(w["material"]),
-                                adsorbate=w["adsorbate"], temperature=w["T"] if temperature is None else temperature, **w["units"], **w["meta"])
+                                adsorbate=w["adsorbate"], temperature=t_store(w["units"]["temperature_unit"], w["T"] if temperature is None else temperature),
+                                **w["units"], **w["meta"])
 
-    def build_model(adsorbate, T, spec, material, in_pa=True):
+    def build_model(adsorbate, T, spec, material, in_pa=True, temperature_unit="K"):
         name = spec["model"]
         if name in ("Langmuir", "Toth"):
             params = {"n_m": spec["n_m"], "K": spec["K"]}
@@ -472,8 +522,8 @@ def run(ck):
             pr = (0.01, 0.9)
         model = pgm.get_isotherm_model(name, parameters={k: np.float64(v) for k, v in params.items()}, pressure_range=pr, loading_range=(0.0, 5.0), rmse=0.01)
         units = {"pressure_mode": "absolute", "pressure_unit": "Pa" if in_pa else "bar", "loading_basis": "molar", "loading_unit": "mmol", "material_basis": "mass",
-                 "material_unit": "g", "temperature_unit": "K"}
-        return pg.ModelIsotherm(model=model, branch="ads", material=material, adsorbate=adsorbate, temperature=T, **units)
+                 "material_unit": "g", "temperature_unit": temperature_unit}
+        return pg.ModelIsotherm(model=model, branch="ads", material=material, adsorbate=adsorbate, temperature=t_store(temperature_unit, T), **units)
 
     class Objs(dict):
         """The objects of a world, built on first use (identical every time); `snaps` holds the snapshot taken when each was built /
@@ -525,11 +575,11 @@ def run(ck):
                 if measured:
                     return build_model("nitrogen", 77.355, w["miso"], "pgv-model-solid")
                 spec = w["miso"] if w["units"]["pressure_mode"] == "absolute" else dict(w["miso"], K=w["miso"]["K"] / 1e5, top=w["miso"]["top"] * 1e5)
-                return build_model(w["adsorbate"], w["T"], spec, dict(w["material"]), in_pa=True)
+                return build_model(w["adsorbate"], w["T"], spec, dict(w["material"]), in_pa=True, temperature_unit=w["units"]["temperature_unit"])
             if key == "miso2":
                 if measured:
                     return build_model("nitrogen", 77.355, w["miso2"], "pgv-model-solid", in_pa=False)
-                return build_model(w["adsorbate"], w["T"], w["miso2"], dict(w["material"]), in_pa=False)
+                return build_model(w["adsorbate"], w["T"], w["miso2"], dict(w["material"]), in_pa=False, temperature_unit=w["units"]["temperature_unit"])
             if key == "arrays":
                 src = load(w["file"]) if measured else build_point(w)      # a separate object: the isotherm under test is not touched
                 p, l = src.pressure(branch="ads"), src.loading(branch="ads")
@@ -927,7 +977,7 @@ def _run_body(ck, env):
         if world["kind"] == "measured":
             return {"isotherm": "docs/examples/data/characterisation/" + world["file"], "model isotherms (Pa / bar)": [world["miso"], world["miso2"]],
                     "near-duplicate temperatures (near0..2: the same isotherm, same adsorbate object)": world.get("near_T")}
-        return {"adsorbate": all_defs[world["adsorbate"]], "temperature": world["T"], "second temperature": world["T2"],
+        return {"adsorbate": all_defs[world["adsorbate"]], "temperature (K)": world["T"], "temperature as stored (in units['temperature_unit'])": world["stored_temperature"], "second temperature (K)": world["T2"],
                 "near-duplicate temperatures (near0..2: the same isotherm, same adsorbate object)": world.get("near_T"), "units": world["units"], "material": world["material"],
                 "pressure": world["pressure"], "loading": world["loading"], "branch": world["branch"], "model isotherms (Pa / bar)": [world["miso"], world["miso2"]]}
 
@@ -980,6 +1030,55 @@ def _run_body(ck, env):
         if reg:
             ck.fail_case({"query": "sequence", "clause": "registered adsorbate modified by read-only calls", "object": reg[0]["adsorbate"]},
                          {"world": world["name"], "history": list(history), "changed": reg[:3]})
+        twin_observation(world, objs, history, full=bucket_prefix in ("sweep:", "query:", "option-kind-iast:"))      # (the CSV / AIF texts in the long histories only: 5 ms each)
+
+    ISO_KEYS = ("iso", "ref", "cold", "ref_same", "miso", "miso2", "pair", "near0", "near1", "near2")
+
+    def observe(v, full=True):
+        """Everything a user can read off an isotherm without a query: identifier, dictionary, the three export texts, the names bound on the instance, the labels."""
+        if isinstance(v, (list, tuple)):
+            return [observe(x, full) for x in v]
+        if not _is_isotherm(v):
+            return None
+        return {"iso_id": _or_error(lambda: v.iso_id), "to_dict": _or_error(lambda: canon(v.to_dict())), "to_dict keys": _or_error(lambda: tuple(str(k) for k in v.to_dict())),
+                "to_json": _or_error(lambda: v.to_json()), "to_csv": _or_error(lambda: v.to_csv() if full and hasattr(v, "to_csv") else None), "to_aif": _or_error(lambda: v.to_aif() if full and hasattr(v, "to_aif") else None),
+                "str": _or_error(lambda: str(v)), "public_attributes": tuple(sorted(k for k in vars(v) if not k.startswith("_"))),
+                "private_attributes": tuple(sorted(k for k in vars(v) if k.startswith("_")))}
+
+    def twin_observation(world, objs, history, full=True):
+        """After the history: every isotherm that took part, against an IDENTICAL FRESH one (built now, never queried): same identifier, dictionary (keys in order and
+        values), export texts, instance names — and `==` between the two holds.  The per-call snapshots compare an object with itself before / after; this one also sees
+        what a lazily created attribute adds between construction and the first look, and the exports even when no export query was drawn into the history."""
+        keys = [k for k in ISO_KEYS if k in objs and objs[k] is not None]
+        if not keys or not history:
+            return
+        _t0 = _time.time()
+        used = {k: observe(objs[k], full) for k in keys}
+        _t1 = _time.time()
+        tw = fresh(world, light=True)
+        _t2 = _time.time()
+        timing["(observe, included above)"] = round(timing.get("(observe, included above)", 0.0) + _t1 - _t0, 2)
+        timing["(twin fresh, included above)"] = round(timing.get("(twin fresh, included above)", 0.0) + _t2 - _t1, 2)
+        for k in keys:
+            t = tw[k]
+            want = observe(t, full)
+            pairs = list(zip(objs[k], t, used[k], want)) if isinstance(t, (list, tuple)) else [(objs[k], t, used[k], want)]
+            for j, (a, b, oa, ob) in enumerate(pairs):
+                if oa is None:
+                    continue
+                ck.count((world["name"], tuple(history), "twin", k, j), bucket="twin-observation:" + type(a).__name__)
+                priv = [x for x in oa["private_attributes"] if x not in ob["private_attributes"]]
+                if priv:
+                    ck.cov.setdefault("private attributes bound after construction", {})[type(a).__name__] = priv
+                eq = _or_error(lambda: bool(a == b))
+                diff = [x for x in oa if x != "private_attributes" and oa[x] != ob[x]]
+                if diff or eq is not True:
+                    what = diff[0] if diff else "=="
+                    ck.fail_case({"query": "sequence", "clause": "isotherm after read-only calls differs from an identical fresh one", "object": k, "observation": what},
+                                 {"world": world["name"], "history": list(history[-12:]), "length of the history": len(history), "object": k if len(pairs) == 1 else f"{k}[{j}]",
+                                  "differs in": diff, "== with the fresh twin": str(eq),
+                                  "first difference (after the history | fresh)": _text_diff(oa[what], ob[what]) if diff else None,
+                                  "instance names bound after construction": priv, "world_definition": describe(world)})
 
     # ------------------------------------------------------------------ worlds of this run
     measured = [measured_world(f) for f in SAMPLES]
@@ -1207,6 +1306,7 @@ def _run_body(ck, env):
                          {"world": world["name"], "history": [call_name(x, fills) for x in history], "after_history": str(out)[:300], "fresh": str(ref_out)[:300],
                           "length of the chain before the call": i, "unit arguments": {f"#{j}": u for j, u in enumerate(res.units)}, "abscissa": repr(abscissa(res.src, c[0], c[1], c[5], c[6])), "world_definition": describe(world)})
             return False
+        twin_observation(world, objs, [call_name(x, fills) for x in chain], full=False)
         return True
 
     COMPONENTS = {"function": 0, "branch": 1, "kind": 2, "fill": 3, "units": 4, "where": 5, "abscissa digits": 6}
@@ -1577,6 +1677,14 @@ def _ids_of(v):
     if isinstance(v, (list, tuple)):
         return tuple(_ids_of(x) for x in v)
     return _or_error(lambda: v.iso_id) if _is_isotherm(v) else None
+
+
+def _text_diff(a, b):
+    """Two export texts: the place where they part."""
+    if isinstance(a, str) and isinstance(b, str):
+        i = next((j for j, (x, y) in enumerate(zip(a, b)) if x != y), min(len(a), len(b)))
+        return {"at character": i, "after the history": a[max(0, i - 60):i + 120], "fresh": b[max(0, i - 60):i + 120], "lengths": [len(a), len(b)]}
+    return _first_diff(a, b)
 
 
 def _first_diff(a, b):
